@@ -643,7 +643,7 @@ fn word_values(totals: &mut Totals) {
 /// A variable name is taken as it is given: with blanks (or other white space) around it, it is another
 /// name than without.
 fn padded_names(totals: &mut Totals) {
-    let names = [" a", "a ", "\ta", "a\u{a0}", "\u{2003}a", " a::b ", " ", "A", "a\n"];
+    let names = [" a", "a ", "\ta", "a\u{a0}", "\u{2003}a", " a::b ", " ", "A", "a\n", "\u{feff}a", "a\u{feff}", "a\u{200b}", "\u{200d}a", "a\u{ad}", "a\u{0}", "\u{1}a", "a\u{301}", "\u{202e}a", "a\u{85}"];
     for name in names {
         for op in ["set_by_name", "get_by_name", "is_defined", "unset", "set_by_name-remove"] {
             totals.evals += 1;
